@@ -21,7 +21,8 @@ RULE = (
 )
 ASSUMPTIONS = ["small-scope ARGs", "migration rows are outside the statement and not perturbed here"]
 
-VARIANTS = ["rich", "struct", "rawbytes", "edge_md", "states", "mono_sites", "known_mut_times", "individuals", "all"]
+VARIANTS = ["rich", "struct", "rawbytes", "edge_md", "states", "mono_sites", "mono_one_left", "mono_one_right", "mono_balance_left", "mono_balance_right",
+            "known_mut_times", "individuals", "all"]
 
 
 def warmup():
@@ -37,6 +38,8 @@ def cases(tier, seed):
         pats = pats[:2] + pats[3:4] if tier == "quick" else pats
         for pn, pat in pats:
             out.append({"arg": a, "mut": pat, "above_root": int(pn == "mod3"), "recurrent": pn == "mod3b"})
+            if pn == "mod3" and a["L"] > 1:
+                out.append({"arg": a, "mut": pat, "above_root": 0, "recurrent": False, "merge_sites": True})
     return {
         "cases": out,
         "states": sp.states,
@@ -46,7 +49,29 @@ def cases(tier, seed):
     }
 
 
+def add_mono(ts, k, side):
+    """add exactly k monomorphic sites, in the k left-most (right-most) gaps between existing sites (and the flank)"""
+    t = ts.dump_tables()
+    pos = sorted(set(float(x) for x in t.sites.position))
+    cand = [(a + b) / 2 for a, b in zip([0.0] + pos, pos + [float(ts.sequence_length)]) if b - a > 1e-9]
+    cand = [c for c in cand if c not in pos]
+    if side == "right":
+        cand = cand[::-1]
+    for c in cand[:k]:
+        t.sites.add_row(c, "G")
+    t.sort()
+    t.build_index()
+    t.compute_mutation_parents()
+    return t.tree_sequence()
+
+
 def perturb(ts, v):
+    if v.startswith("mono_one"):
+        return add_mono(ts, 1, v.split("_")[-1])
+    if v.startswith("mono_balance"):
+        # as many monomorphic sites as there are 'surplus' mutations: num_sites == num_mutations afterwards
+        k = ts.num_mutations - ts.num_sites
+        return add_mono(ts, k, v.split("_")[-1]) if k > 0 else None
     if v == "known_mut_times":
         t = ts.dump_tables()
         t.compute_mutation_times()
@@ -74,7 +99,13 @@ def run(case):
         base[i] = meta.outputs(method, ts, 1.0, cfg, popsize=1.0)
     for v in VARIANTS:
         tsv = perturb(ts, v)
+        if tsv is None:
+            continue
         if tsv.num_mutations != ts.num_mutations or not np.array_equal(tsv.mutations_node, ts.mutations_node):
+            if v in ("known_mut_times", "all") and case.get("merge_sites"):
+                # making mutation times known re-sorts the rows of multi-node sites: not the same input any more
+                tags["variant_skipped_rows_resorted"] = tags.get("variant_skipped_rows_resorted", 0) + 1
+                continue
             viol.append({"kind": "harness_perturbation_changed_mutations", "msg": v, "facts": {}, "sub": {"variant": v}})
             continue
         for i, (method, cfg) in enumerate(plans):
